@@ -17,7 +17,8 @@ import tempfile
 
 VERIF = os.path.dirname(os.path.dirname(os.path.abspath(__file__)))
 REPO = "/repo"
-OUT = "/tmp/wt-out"
+OUT = os.environ.get("SEED_OUT", "/tmp/wt-out")
+ROUND = os.environ.get("SEED_ROUND", "")
 
 
 def sh(cmd, **kw):
@@ -33,7 +34,7 @@ def evaluate(prop: str, letter: str, also):
         return None
     wt = tempfile.mkdtemp(prefix=f"seed-{prop}{letter}-")
     ev = tempfile.mkdtemp(prefix=f"seed-ev-{prop}{letter}-")
-    res = {"property": prop, "id": f"{prop}-{letter}"}
+    res = {"property": prop, "id": f"{prop}-{ROUND}{letter}"}
     try:
         sh(["git", "-C", REPO, "worktree", "add", "-q", "--detach", wt, "HEAD"], check=True)
         # demo on the unmodified tree
